@@ -8,10 +8,12 @@ import (
 	"go/ast"
 	"go/token"
 	"go/types"
+	"sort"
 	"strings"
 
 	"golang.org/x/tools/go/ssa"
 
+	"hzcheck/core"
 	"hzcheck/esp"
 	"hzcheck/zone"
 )
@@ -580,4 +582,891 @@ func c20Sorted(e *Env) {
 		})
 	}
 	r.Floor(rule, n, 5, "locally created expression roots filled by parseExprNode")
+}
+
+// C13.len — the unread-length counter moves with the bytes.
+func c13Len(e *Env) {
+	const rule = "C13.len"
+	w, r := e.W, e.R
+	r.Explainf("C13.len: linkBuffer.len (what Len() reports) is written only (a) as `len += n` in a block that also advances a node's write offset by the same n (`malloc += n`: bytes received), and (b) as `len -= n` in a function that first rejects `Len() < n` and advances the read node's offset — the only writer of a read offset on the input side; it is never assigned otherwise. The counter then equals the number of received-but-unconsumed bytes, which is what Peek/Skip/fill and Release's fast path rely on.")
+	lenF := w.Field("pkg/network/standard", "linkBuffer", "len")
+	malloc := w.Field("pkg/network/standard", "linkBufferNode", "malloc")
+	off := w.Field("pkg/network/standard", "linkBufferNode", "off")
+	inBuf := w.Field("pkg/network/standard", "Conn", "inputBuffer")
+	if lenF == nil || malloc == nil || off == nil || inBuf == nil {
+		r.Anchor(rule, "standard.linkBuffer.len / linkBufferNode.malloc / off / Conn.inputBuffer")
+		return
+	}
+	nAdd, nSub := 0, 0
+	for _, fi := range declaredNonTest(w) {
+		if fi.Decl.Body == nil || w.RelPkg(fi.Obj.Pkg()) != "pkg/network/standard" {
+			continue
+		}
+		info := fi.Pkg.TypesInfo
+		fname := w.FuncName(fi.Obj)
+		par := parents(fi.Decl)
+		k := 0
+		// the counter of the input side: c.inputBuffer.len
+		isInLen := func(x ast.Expr) bool {
+			se, ok := unparen(x).(*ast.SelectorExpr)
+			return ok && usedVar(info, se) == lenF && usedVar(info, se.X) == inBuf
+		}
+		ast.Inspect(fi.Decl.Body, func(nd ast.Node) bool {
+			switch x := nd.(type) {
+			case *ast.IncDecStmt:
+				if isInLen(x.X) {
+					k++
+					r.Fail(rule, fmt.Sprintf("%s:len-write#%d", fname, k), w.Pos(x.Pos()), "the unread-length counter changes only by the number of bytes received or consumed", "`"+types.ExprString(x.X)+x.Tok.String()+"` changes the counter by one without a matching offset change")
+				}
+			case *ast.AssignStmt:
+				for i, l := range x.Lhs {
+					if !isInLen(l) {
+						continue
+					}
+					k++
+					key := fmt.Sprintf("%s:len-write#%d", fname, k)
+					pos := w.Pos(x.Pos())
+					if len(x.Rhs) != len(x.Lhs) || (x.Tok != token.ADD_ASSIGN && x.Tok != token.SUB_ASSIGN) {
+						r.Fail(rule, key, pos, "the unread-length counter changes only by += received / -= consumed", "`"+nodeString2(x)+"` sets the counter directly")
+						continue
+					}
+					amt := usedVar(info, x.Rhs[i])
+					if amt == nil {
+						r.Fail(rule, key, pos, "the amount added to/subtracted from the counter is a variable shared with the offset update", "amount `"+types.ExprString(x.Rhs[i])+"` is not a plain variable; undecided")
+						continue
+					}
+					if x.Tok == token.ADD_ASSIGN {
+						nAdd++
+						// same block: <node>.malloc += amt
+						paired := false
+						if blk, ok := par[x].(*ast.BlockStmt); ok {
+							for _, s := range blk.List {
+								if a2, ok := s.(*ast.AssignStmt); ok && a2.Tok == token.ADD_ASSIGN && len(a2.Lhs) == 1 && len(a2.Rhs) == 1 && usedVar(info, a2.Lhs[0]) == malloc && usedVar(info, a2.Rhs[0]) == amt {
+									paired = true
+								}
+							}
+						}
+						r.Check(paired, rule, key+":paired-with-malloc", pos, "len += n goes with malloc += n in the same block", "`"+nodeString2(x)+"` has no `….malloc += "+amt.Name()+"` beside it: Len() would count bytes that were not received (or miss received ones)")
+					} else {
+						nSub++
+						// guard: an earlier statement of the function returns when Len() < amt
+						guarded := false
+						for _, s := range fi.Decl.Body.List {
+							if s.Pos() >= x.Pos() {
+								break
+							}
+							is, ok := s.(*ast.IfStmt)
+							if !ok || !terminates(is.Body) {
+								continue
+							}
+							if be, ok := unparen(is.Cond).(*ast.BinaryExpr); ok && be.Op == token.LSS && usedVar(info, be.Y) == amt {
+								if usedVar(info, be.X) == lenF {
+									guarded = true
+								} else if c, ok := unparen(be.X).(*ast.CallExpr); ok && len(c.Args) == 0 {
+									if d := w.DeclOf(calleeOf(info, c)); d != nil && d.Decl.Body != nil && len(d.Decl.Body.List) == 1 {
+										if rs, ok := d.Decl.Body.List[0].(*ast.ReturnStmt); ok && len(rs.Results) == 1 && usedVar(d.Pkg.TypesInfo, rs.Results[0]) == lenF {
+											guarded = true
+										}
+									}
+								}
+							}
+						}
+						advances := false
+						ast.Inspect(fi.Decl.Body, func(m ast.Node) bool {
+							if a2, ok := m.(*ast.AssignStmt); ok && a2.Tok == token.ADD_ASSIGN && len(a2.Lhs) == 1 && usedVar(info, a2.Lhs[0]) == off {
+								advances = true
+							}
+							return true
+						})
+						r.Check(guarded, rule, key+":not-below-zero", pos, "len -= n only after `Len() < n` was rejected", "`"+nodeString2(x)+"` is not preceded by a check that "+amt.Name()+" bytes are buffered: the counter can go negative")
+						r.Check(advances, rule, key+":advances-read-offset", pos, "the function that decreases the counter advances a read offset", "no `….off += …` in "+fname+": bytes are counted as consumed but stay readable")
+					}
+				}
+			}
+			return true
+		})
+	}
+	r.Floor(rule, nAdd, 1, "`len += n` sites")
+	r.Floor(rule, nSub, 1, "`len -= n` sites")
+}
+
+// C10.budget — the per-phase deadline never exceeds what is left of the request timeout.
+func c10Budget(e *Env) {
+	const rule = "C10.budget"
+	w, r := e.W, e.R
+	r.Explainf("C10.budget: zone abstract interpretation of the function that turns the whole-request timeout into the deadline of the next write/read (http1.updateReqTimeout, or whatever (Duration, Duration, Time) → (bool, Duration) function doNonNilReqResp uses): on every return that does not ask to close the connection and lies behind the computation `left := reqTimeout − time.Since(begin)`, the returned duration is ≤ left (and it is the phase timeout only when that is smaller). A deadline larger than the remaining budget lets a stalled peer hold a call beyond its request timeout.")
+	var fi *core.FuncInfo
+	if fi = w.Func("pkg/protocol/http1", "", "updateReqTimeout"); fi == nil {
+		// by role: package-level (Duration, Duration, Time) → (bool, Duration)
+		n := 0
+		for _, d := range declaredNonTest(w) {
+			if d.Decl.Body == nil || w.RelPkg(d.Obj.Pkg()) != "pkg/protocol/http1" || recvNamed(d.Obj) != nil {
+				continue
+			}
+			if sigString(d.Obj) == "func(reqTimeout time.Duration, compareTimeout time.Duration, before time.Time) (shouldCloseConn bool, timeout time.Duration)" ||
+				(func() bool {
+					s := d.Obj.Type().(*types.Signature)
+					return s.Params().Len() == 3 && s.Results().Len() == 2 && s.Params().At(0).Type().String() == "time.Duration" && s.Params().At(1).Type().String() == "time.Duration" && s.Params().At(2).Type().String() == "time.Time" && s.Results().At(0).Type().String() == "bool" && s.Results().At(1).Type().String() == "time.Duration"
+				})() {
+				fi = d
+				n++
+			}
+		}
+		if n != 1 {
+			r.Anchor(rule, "http1.updateReqTimeout (or the one (Duration, Duration, Time) → (bool, Duration) function of the package)")
+			return
+		}
+	}
+	fn := w.SSAFunc(fi)
+	if fn == nil || len(fn.Params) != 3 {
+		r.Anchor(rule, "SSA of "+w.FuncName(fi.Obj))
+		return
+	}
+	fname := w.FuncName(fi.Obj)
+	// left := reqTimeout - time.Since(before)
+	var left ssa.Value
+	for _, b := range fn.Blocks {
+		for _, ins := range b.Instrs {
+			if bo, ok := ins.(*ssa.BinOp); ok && bo.Op == token.SUB && bo.X == ssa.Value(fn.Params[0]) {
+				if c, ok := bo.Y.(*ssa.Call); ok && c.Call.StaticCallee() != nil && c.Call.StaticCallee().Pkg != nil && c.Call.StaticCallee().Pkg.Pkg.Path() == "time" {
+					left = bo
+				}
+			}
+		}
+	}
+	if left == nil {
+		r.Fail(rule, fname+":remaining", w.Pos(fi.Decl.Pos()), "the remaining budget is computed as reqTimeout − time.Since(begin)", "no such subtraction found in "+fname+"; undecided")
+		return
+	}
+	lb := left.(*ssa.BinOp).Block()
+	z := getZone(w)
+	n := 0
+	opts := zone.Options{
+		Custom: func(a *zone.Analyzer, d *zone.DBM, ins ssa.Instruction) {
+			ret, ok := ins.(*ssa.Return)
+			if !ok || len(ret.Results) != 2 || !lb.Dominates(ret.Block()) {
+				return
+			}
+			if c, isC := ret.Results[0].(*ssa.Const); !isC || c.Value == nil || c.Value.String() != "false" {
+				return
+			}
+			n++
+			key := fmt.Sprintf("%s:return#%d:within-budget", fname, n)
+			if d == nil {
+				r.Fail(rule, key, w.Pos(ret.Pos()), "returned deadline ≤ remaining request budget", "return in a block the analysis did not reach; undecided")
+				return
+			}
+			ub := zone.Tub(d, a.IntTerm(ret.Results[1]), a.IntTerm(left))
+			r.Check(ub <= 0, rule, key, w.Pos(ret.Pos()), "returned deadline ≤ remaining request budget",
+				fmt.Sprintf("on this return the deadline is not shown to be ≤ the remaining budget (bound of deadline − left: %s): the phase timeout is handed out although less than that is left of the request timeout", boundStr(ub)))
+		},
+	}
+	z.prog.Analyze(fn, opts)
+	r.Unit("%s: %s — %d keep-alive returns behind the budget computation", rule, fname, n)
+	r.Floor(rule, n, 2, "returns (false, d) behind `left := reqTimeout − time.Since(…)`")
+}
+
+// C06.payload — a node's route payload (handlers, pattern, parameter names) is replaced or
+// cleared as a whole.
+func c06Payload(e *Env) {
+	const rule = "C06.payload"
+	w, r := e.W, e.R
+	r.Explainf("C06.payload: the route payload of a tree node is the set of node fields that newNode initialises from the route description insert receives (handler chain, full pattern, parameter names). In router.insert every block that assigns one payload field of a node assigns all of them on that node — from the route's values when a route is attached, or to their zero values when an edge is split and the payload moves to the new node. A partial update leaves the handler of one route with the pattern or parameter names of another (Param(\"id\") filed under another route's name).")
+	ins := w.Func("pkg/route", "router", "insert")
+	newNode := w.Func("pkg/route", "", "newNode")
+	node := w.Named("pkg/route", "node")
+	if ins == nil || newNode == nil || node == nil {
+		r.Anchor(rule, "route.router.insert / newNode / node")
+		return
+	}
+	info := ins.Pkg.TypesInfo
+	fname := w.FuncName(ins.Obj)
+	// parameters of insert that are passed to newNode somewhere: the route description
+	insParams := map[*types.Var]bool{}
+	sig := ins.Obj.Type().(*types.Signature)
+	for i := 0; i < sig.Params().Len(); i++ {
+		insParams[sig.Params().At(i)] = true
+	}
+	nnSig := newNode.Obj.Type().(*types.Signature)
+	routeParamOfNewNode := map[*types.Var]bool{} // newNode params that receive an insert param at some call in insert
+	ast.Inspect(ins.Decl.Body, func(n ast.Node) bool {
+		if c, ok := n.(*ast.CallExpr); ok && calleeOf(info, c) == newNode.Obj {
+			for i, a := range c.Args {
+				if v := usedVar(info, a); v != nil && insParams[v] && i < nnSig.Params().Len() {
+					// the path/prefix and kind arguments describe the edge, not the route payload
+					if b, isB := v.Type().Underlying().(*types.Basic); isB && (b.Kind() == types.Uint8 || b.Info()&types.IsInteger != 0) {
+						continue
+					}
+					routeParamOfNewNode[nnSig.Params().At(i)] = true
+				}
+			}
+		}
+		return true
+	})
+	// payload fields: fields the newNode literal sets from those parameters
+	payload := map[*types.Var]bool{}
+	ninfo := newNode.Pkg.TypesInfo
+	ast.Inspect(newNode.Decl.Body, func(n ast.Node) bool {
+		if kv, ok := n.(*ast.KeyValueExpr); ok {
+			if v := usedVar(ninfo, kv.Value); v != nil && routeParamOfNewNode[v] {
+				if f, _ := ninfo.ObjectOf(kv.Key.(*ast.Ident)).(*types.Var); f != nil && f.IsField() {
+					if _, isPtr := f.Type().Underlying().(*types.Pointer); !isPtr { // child links are C06.reparent's
+						if f.Name() != "prefix" && f.Name() != "label" {
+							payload[f] = true
+						}
+					}
+				}
+			}
+		}
+		return true
+	})
+	var pnames []string
+	for f := range payload {
+		pnames = append(pnames, f.Name())
+	}
+	sortStrings(pnames)
+	r.Unit("%s: payload fields of route.node: %v", rule, pnames)
+	r.Floor(rule, len(payload), 3, "payload fields of the tree node")
+	// blocks of insert
+	nBlk := 0
+	ast.Inspect(ins.Decl.Body, func(n ast.Node) bool {
+		blk, ok := n.(*ast.BlockStmt)
+		if !ok {
+			return true
+		}
+		// per base variable: payload fields assigned directly in this block
+		type upd struct {
+			fields map[*types.Var]bool
+			pos    ast.Node
+		}
+		byBase := map[*types.Var]*upd{}
+		for _, s := range blk.List {
+			as, ok := s.(*ast.AssignStmt)
+			if !ok {
+				continue
+			}
+			for _, l := range as.Lhs {
+				se, ok := unparen(l).(*ast.SelectorExpr)
+				if !ok {
+					continue
+				}
+				f := usedVar(info, se)
+				if f == nil || !payload[f] {
+					continue
+				}
+				base := usedVar(info, se.X)
+				if base == nil {
+					continue
+				}
+				if byBase[base] == nil {
+					byBase[base] = &upd{fields: map[*types.Var]bool{}, pos: as}
+				}
+				byBase[base].fields[f] = true
+			}
+		}
+		for base, u := range byBase {
+			nBlk++
+			var missing []string
+			for f := range payload {
+				if !u.fields[f] {
+					missing = append(missing, f.Name())
+				}
+			}
+			sortStrings(missing)
+			var have []string
+			for f := range u.fields {
+				have = append(have, f.Name())
+			}
+			sortStrings(have)
+			key := fmt.Sprintf("%s:%s{%s}", fname, base.Name(), strings.Join(have, ","))
+			r.Check(len(missing) == 0, rule, key, w.Pos(u.pos.Pos()), "a block that changes a node's route payload changes all of it",
+				fmt.Sprintf("the block assigns %v of %s but not %v: the node keeps part of another route's description", have, base.Name(), missing))
+		}
+		return true
+	})
+	r.Floor(rule, nBlk, 3, "blocks of insert that update a node's route payload")
+}
+
+// C13.remainder — a loop that works off a byte count subtracts from the running remainder.
+func c13Remainder(e *Env) {
+	const rule = "C13.remainder"
+	w, r := e.W, e.R
+	r.Explainf("C13.remainder: in package network/standard every for-loop whose init copies a byte count into a loop variable (`for ack := n; ack > 0; …`) updates that variable only by subtracting from ITSELF (`ack = ack - l`, `ack -= l`): recomputing it from the original count (`ack = n - l`) is right for one step only — across three buffer nodes the cursor lands too far ahead and Len() disagrees with the real position.")
+	n := 0
+	for _, fi := range declaredNonTest(w) {
+		if fi.Decl.Body == nil || w.RelPkg(fi.Obj.Pkg()) != "pkg/network/standard" {
+			continue
+		}
+		info := fi.Pkg.TypesInfo
+		fname := w.FuncName(fi.Obj)
+		k := 0
+		ast.Inspect(fi.Decl.Body, func(nd ast.Node) bool {
+			fs, ok := nd.(*ast.ForStmt)
+			if !ok || fs.Init == nil || fs.Cond == nil {
+				return true
+			}
+			ini, ok := fs.Init.(*ast.AssignStmt)
+			if !ok || len(ini.Lhs) != 1 || len(ini.Rhs) != 1 || ini.Tok != token.DEFINE {
+				return true
+			}
+			lv := usedVar(info, ini.Lhs[0])
+			src := usedVar(info, ini.Rhs[0])
+			if lv == nil || src == nil {
+				return true
+			}
+			// condition `lv > 0`
+			be, ok := unparen(fs.Cond).(*ast.BinaryExpr)
+			if !ok || be.Op != token.GTR || usedVar(info, be.X) != lv {
+				return true
+			}
+			k++
+			n++
+			key := fmt.Sprintf("%s:loop#%d:%s", fname, k, lv.Name())
+			bad := ""
+			check := func(as *ast.AssignStmt) {
+				for i, l := range as.Lhs {
+					if usedVar(info, l) != lv {
+						continue
+					}
+					switch as.Tok {
+					case token.SUB_ASSIGN:
+					case token.ASSIGN:
+						okForm := false
+						if len(as.Rhs) == len(as.Lhs) {
+							if b2, ok := unparen(as.Rhs[i]).(*ast.BinaryExpr); ok && b2.Op == token.SUB && usedVar(info, b2.X) == lv {
+								okForm = true
+							}
+						}
+						if !okForm {
+							bad = nodeString2(as)
+						}
+					default:
+						bad = nodeString2(as)
+					}
+				}
+			}
+			if p, ok := fs.Post.(*ast.AssignStmt); ok {
+				check(p)
+			}
+			ast.Inspect(fs.Body, func(m ast.Node) bool {
+				if as, ok := m.(*ast.AssignStmt); ok {
+					check(as)
+				}
+				return true
+			})
+			r.Check(bad == "", rule, key, w.Pos(fs.Pos()), "the remaining count is reduced from its own previous value", "`"+bad+"` recomputes the remainder instead of subtracting from it: after the second buffer node the count is wrong")
+			return true
+		})
+	}
+	r.Floor(rule, n, 1, "count-down loops over a byte count in network/standard")
+}
+
+// C12.abortfirst — helpers documented to stop the chain abort before they do anything that
+// can unwind the stack.
+func c12AbortFirst(e *Env) {
+	const rule = "C12.abortfirst"
+	w, r := e.W, e.R
+	r.Explainf("C12.abortfirst: in every RequestContext method that calls Abort() and also renders a body through Render/JSON-style helpers (which panic when the payload cannot be marshalled), Abort() precedes the rendering call: otherwise a recovered panic leaves the chain index un-aborted and the handlers after the aborting one still run.")
+	abort := w.Func("pkg/app", "RequestContext", "Abort")
+	render := w.Func("pkg/app", "RequestContext", "Render")
+	if abort == nil || render == nil {
+		r.Anchor(rule, "app.RequestContext.Abort / Render")
+		return
+	}
+	// methods that (transitively, within RequestContext) reach Render
+	reachRender := map[*types.Func]bool{render.Obj: true}
+	for changed := true; changed; {
+		changed = false
+		for _, fi := range declaredNonTest(w) {
+			if rn := recvNamed(fi.Obj); rn == nil || rn.Obj().Name() != "RequestContext" || fi.Decl.Body == nil || reachRender[fi.Obj] {
+				continue
+			}
+			if len(funcsCallingIn(fi, func(f *types.Func) bool { return reachRender[f] })) > 0 {
+				reachRender[fi.Obj] = true
+				changed = true
+			}
+		}
+	}
+	n := 0
+	for _, fi := range declaredNonTest(w) {
+		if rn := recvNamed(fi.Obj); rn == nil || rn.Obj().Name() != "RequestContext" || fi.Decl.Body == nil {
+			continue
+		}
+		aborts := funcsCallingIn(fi, func(f *types.Func) bool { return f == abort.Obj })
+		renders := funcsCallingIn(fi, func(f *types.Func) bool { return reachRender[f] })
+		if len(aborts) == 0 || len(renders) == 0 || fi.Obj == abort.Obj {
+			continue
+		}
+		n++
+		first := renders[0]
+		for _, c := range renders {
+			if c.Pos() < first.Pos() {
+				first = c
+			}
+		}
+		okOrder := false
+		for _, a := range aborts {
+			if a.Pos() < first.Pos() {
+				okOrder = true
+			}
+		}
+		r.Check(okOrder, rule, w.FuncName(fi.Obj)+":abort-before-render", w.Pos(fi.Decl.Pos()), "Abort() precedes the rendering call", "the body is rendered (may panic on an unmarshallable payload) before Abort(): after a recovered panic the remaining handlers run")
+	}
+	r.Floor(rule, n, 1, "RequestContext methods that abort and render")
+}
+
+// C16.cache — a name is recorded only after it was made unique.
+func c16Cache(e *Env) {
+	const rule = "C16.cache"
+	r := e.R
+	r.Explainf("C16.cache: in cmd/hz/generator, when a block makes a name unique with one of util's Get…UniqueName functions (`x, _ = util.GetHandlerPackageUniqueName(x)`), no earlier statement of that block stores x into a map or a field: what is cached for later methods of the same package must be the unique alias, or two packages end up behind one import alias.")
+	w, err := e.HZ()
+	if err != nil {
+		r.Fail(rule, "engine:load-cmd-hz", "-", "cmd/hz module loads", err.Error())
+		return
+	}
+	gen, util := w.Pkg("generator"), w.Pkg("util")
+	if gen == nil || util == nil {
+		r.Anchor(rule, "cmd/hz/generator / util")
+		return
+	}
+	info := gen.TypesInfo
+	isUniq := func(f *types.Func) bool {
+		return f != nil && f.Pkg() == util.Types && strings.HasPrefix(f.Name(), "Get") && strings.HasSuffix(f.Name(), "UniqueName")
+	}
+	n := 0
+	for _, fi := range declaredNonTest(w) {
+		if fi.Pkg != gen || fi.Decl.Body == nil {
+			continue
+		}
+		fname := w.FuncName(fi.Obj)
+		k := 0
+		ast.Inspect(fi.Decl.Body, func(nd ast.Node) bool {
+			blk, ok := nd.(*ast.BlockStmt)
+			if !ok {
+				return true
+			}
+			for i, s := range blk.List {
+				as, ok := s.(*ast.AssignStmt)
+				if !ok || len(as.Rhs) != 1 {
+					continue
+				}
+				c, ok := unparen(as.Rhs[0]).(*ast.CallExpr)
+				if !ok || !isUniq(calleeOf(info, c)) || len(c.Args) != 1 {
+					continue
+				}
+				x := usedVar(info, as.Lhs[0])
+				if x == nil || usedVar(info, c.Args[0]) != x {
+					continue
+				}
+				k++
+				n++
+				key := fmt.Sprintf("%s:uniq#%d:%s", fname, k, x.Name())
+				early := ""
+				for _, prev := range blk.List[:i] {
+					ast.Inspect(prev, func(m ast.Node) bool {
+						a2, ok := m.(*ast.AssignStmt)
+						if !ok {
+							return true
+						}
+						for j, l := range a2.Lhs {
+							if j >= len(a2.Rhs) || usedVar(info, a2.Rhs[j]) != x {
+								continue
+							}
+							switch unparen(l).(type) {
+							case *ast.IndexExpr, *ast.SelectorExpr:
+								early = nodeString2(a2)
+							}
+						}
+						return true
+					})
+				}
+				r.Check(early == "", rule, key, w.Pos(as.Pos()), "nothing records the name before it is made unique", "`"+early+"` stores the raw name before `"+nodeString2(as)+"`: later uses read the non-unique name back")
+			}
+			return true
+		})
+	}
+	r.Floor(rule, n, 1, "in-place uniquifications `x, _ = util.Get…UniqueName(x)` in the generator")
+}
+
+// C15.default — a default is dropped when the JSON body carries the key (all sibling decoders).
+func c15Default(e *Env) {
+	const rule = "C15.default"
+	w, r := e.W, e.R
+	r.Explainf("C15.default: the field decoders are siblings of one scheme. In each of them the json-tag branch takes the declared default unconditionally (`v = tagInfo.Default`) and then clears it when the body carries the key (`if … && keyExist(req, tagInfo) { v = \"\" }`). Every call of keyExist in package decoder must have exactly that shape; the variable survives loop iterations, so 'set the default only when the key is absent' lets a default stored for an earlier, higher-priority tag overwrite a value the JSON body did bind.")
+	p := w.Pkg("pkg/app/server/binding/internal/decoder")
+	if p == nil {
+		r.Anchor(rule, "package binding/internal/decoder")
+		return
+	}
+	info := p.TypesInfo
+	n := 0
+	for _, fi := range declaredNonTest(w) {
+		if fi.Pkg != p || fi.Decl.Body == nil || fi.Obj.Name() == "keyExist" {
+			continue
+		}
+		fname := w.FuncName(fi.Obj)
+		par := parents(fi.Decl)
+		k := 0
+		ast.Inspect(fi.Decl.Body, func(nd ast.Node) bool {
+			call, ok := nd.(*ast.CallExpr)
+			if !ok {
+				return true
+			}
+			f := calleeOf(info, call)
+			if f == nil || f.Name() != "keyExist" || f.Pkg() != p.Types {
+				return true
+			}
+			k++
+			n++
+			key := fmt.Sprintf("%s:keyExist#%d", fname, k)
+			// enclosing if whose condition holds the call as a positive conjunct
+			var is *ast.IfStmt
+			neg := false
+			for cur := ast.Node(call); cur != nil; cur = par[cur] {
+				if u, ok := cur.(*ast.UnaryExpr); ok && u.Op == token.NOT {
+					neg = !neg
+				}
+				if x, ok := par[cur].(*ast.IfStmt); ok {
+					if cur == ast.Node(x.Cond) {
+						is = x
+					}
+					break
+				}
+			}
+			var cleared *types.Var
+			if is != nil && !neg {
+				for _, s := range is.Body.List {
+					if as, ok := s.(*ast.AssignStmt); ok && len(as.Lhs) == 1 && len(as.Rhs) == 1 && as.Tok == token.ASSIGN {
+						if v, ok2 := constString(info, as.Rhs[0]); ok2 && v == "" {
+							cleared = usedVar(info, as.Lhs[0])
+						}
+					}
+				}
+			}
+			r.Check(cleared != nil, rule, key+":clears-default", w.Pos(call.Pos()), "when the body carries the key the pending default is cleared", "keyExist is not used as `if … && keyExist(…) { v = \"\" }`: the default can be applied over a value bound from the JSON body")
+			if cleared == nil {
+				return true
+			}
+			// the same variable is set from a Default field earlier in the enclosing block
+			taken := false
+			if blk, ok := par[is].(*ast.BlockStmt); ok {
+				for _, s := range blk.List {
+					if s.Pos() >= is.Pos() {
+						break
+					}
+					if as, ok := s.(*ast.AssignStmt); ok && len(as.Lhs) == 1 && len(as.Rhs) == 1 && usedVar(info, as.Lhs[0]) == cleared {
+						if se, ok := unparen(as.Rhs[0]).(*ast.SelectorExpr); ok && se.Sel.Name == "Default" {
+							taken = true
+						}
+					}
+				}
+			}
+			r.Check(taken, rule, key+":takes-default-first", w.Pos(call.Pos()), "the json branch first takes this tag's default unconditionally", "no unconditional `"+cleared.Name()+" = tagInfo.Default` before the keyExist test in the same block: a default carried over from an earlier tag stays in force")
+			return true
+		})
+	}
+	r.Floor(rule, n, 4, "keyExist call sites in the sibling decoders")
+}
+
+// C08.precond — a reader that needs an open file is only chosen for entries that have one.
+func c08Precond(e *Env) {
+	const rule = "C08.precond"
+	w, r := e.W, e.R
+	r.Explainf("C08.precond: fsFile methods that panic when the entry has no open file (`if ff.f == nil { panic(…) }`) have the precondition f != nil. (1) Every fsFile literal sets exactly one of `f` (a file on disk) and `dirIndex` (a generated directory page), and neither field is assigned elsewhere, so `len(ff.dirIndex) == 0` implies f != nil. (2) Every call of such a method is guarded — directly or through a predicate method on the same entry whose single return is a conjunction — by `len(ff.dirIndex) == 0` or `ff.f != nil`. Dropping the conjunct sends a large generated index page to the big-file reader, which panics in the handler.")
+	ff := w.Named("pkg/app", "fsFile")
+	fF := w.Field("pkg/app", "fsFile", "f")
+	dI := w.Field("pkg/app", "fsFile", "dirIndex")
+	p := w.Pkg("pkg/app")
+	if ff == nil || fF == nil || dI == nil || p == nil {
+		r.Anchor(rule, "app.fsFile / f / dirIndex")
+		return
+	}
+	info := p.TypesInfo
+	// (1) constructors
+	nLit := 0
+	for _, fi := range declaredNonTest(w) {
+		if fi.Pkg != p || fi.Decl.Body == nil {
+			continue
+		}
+		fname := w.FuncName(fi.Obj)
+		ast.Inspect(fi.Decl.Body, func(nd ast.Node) bool {
+			switch x := nd.(type) {
+			case *ast.CompositeLit:
+				if t := info.TypeOf(x); t == nil || !types.Identical(t, ff) {
+					return true
+				}
+				nLit++
+				hasF, hasD := false, false
+				for _, el := range x.Elts {
+					if kv, ok := el.(*ast.KeyValueExpr); ok {
+						if id, ok := kv.Key.(*ast.Ident); ok {
+							switch info.ObjectOf(id) {
+							case types.Object(fF):
+								hasF = true
+							case types.Object(dI):
+								hasD = true
+							}
+						}
+					}
+				}
+				r.Check(hasF != hasD, rule, fmt.Sprintf("%s:fsFile-literal#%d:one-of-f-dirIndex", fname, nLit), w.Pos(x.Pos()), "an fsFile is built with exactly one of an open file and a generated index", fmt.Sprintf("literal sets f=%v dirIndex=%v", hasF, hasD))
+			case *ast.AssignStmt:
+				for _, l := range x.Lhs {
+					if v := usedVar(info, l); v == fF || v == dI {
+						r.Fail(rule, fname+":assigns:"+v.Name(), w.Pos(x.Pos()), "f and dirIndex are fixed at construction", "`"+nodeString2(x)+"` changes the field after construction; the invariant is undecided")
+					}
+				}
+			}
+			return true
+		})
+	}
+	r.Floor(rule, nLit, 2, "fsFile literals")
+	// (2) methods with the precondition
+	isGuardExpr := func(finfo *types.Info, x ast.Expr) bool {
+		be, ok := unparen(x).(*ast.BinaryExpr)
+		if !ok {
+			return false
+		}
+		if be.Op == token.NEQ && usedVar(finfo, be.X) == fF {
+			if id, ok := unparen(be.Y).(*ast.Ident); ok && id.Name == "nil" {
+				return true
+			}
+		}
+		if be.Op == token.EQL {
+			if c, ok := unparen(be.X).(*ast.CallExpr); ok && isBuiltin(finfo, c, "len") && usedVar(finfo, c.Args[0]) == dI {
+				if z, ok := constInt(finfo, be.Y); ok && z == 0 {
+					return true
+				}
+			}
+		}
+		return false
+	}
+	var conjuncts func(x ast.Expr) []ast.Expr
+	conjuncts = func(x ast.Expr) []ast.Expr {
+		if be, ok := unparen(x).(*ast.BinaryExpr); ok && be.Op == token.LAND {
+			return append(conjuncts(be.X), conjuncts(be.Y)...)
+		}
+		return []ast.Expr{x}
+	}
+	implies := func(finfo *types.Info, cond ast.Expr) bool {
+		for _, cj := range conjuncts(cond) {
+			if isGuardExpr(finfo, cj) {
+				return true
+			}
+			// predicate method whose body is `return a && b && …`
+			if c, ok := unparen(cj).(*ast.CallExpr); ok {
+				if d := w.DeclOf(calleeOf(finfo, c)); d != nil && d.Pkg == p && d.Decl.Body != nil && len(d.Decl.Body.List) == 1 {
+					if rs, ok := d.Decl.Body.List[0].(*ast.ReturnStmt); ok && len(rs.Results) == 1 {
+						for _, c2 := range conjuncts(rs.Results[0]) {
+							if isGuardExpr(d.Pkg.TypesInfo, c2) {
+								return true
+							}
+						}
+					}
+				}
+			}
+		}
+		return false
+	}
+	var needF []*core.FuncInfo
+	for _, fi := range declaredNonTest(w) {
+		if fi.Pkg != p || fi.Decl.Body == nil {
+			continue
+		}
+		if rn := recvNamed(fi.Obj); rn == nil || rn.Obj() != ff.Obj() {
+			continue
+		}
+		for _, s := range fi.Decl.Body.List {
+			is, ok := s.(*ast.IfStmt)
+			if !ok || len(is.Body.List) == 0 {
+				continue
+			}
+			be, ok := unparen(is.Cond).(*ast.BinaryExpr)
+			if !ok || be.Op != token.EQL || usedVar(info, be.X) != fF {
+				continue
+			}
+			if es, ok := is.Body.List[0].(*ast.ExprStmt); ok {
+				if c, ok := es.X.(*ast.CallExpr); ok && isBuiltin(info, c, "panic") {
+					needF = append(needF, fi)
+				}
+			}
+		}
+	}
+	r.Floor(rule, len(needF), 1, "fsFile methods that panic on f == nil")
+	nCall := 0
+	for _, need := range needF {
+		for _, fi := range declaredNonTest(w) {
+			if fi.Pkg != p || fi.Decl.Body == nil {
+				continue
+			}
+			par := parents(fi.Decl)
+			k := 0
+			for _, call := range funcsCallingIn(fi, func(f *types.Func) bool { return f == need.Obj }) {
+				k++
+				nCall++
+				okG := false
+				for _, cond := range enclosingThenConds(par, call) {
+					if implies(info, cond) {
+						okG = true
+					}
+				}
+				r.Check(okG, rule, fmt.Sprintf("%s:%s#%d:guarded", w.FuncName(fi.Obj), need.Obj.Name(), k), w.Pos(call.Pos()), need.Obj.Name()+" is called only for entries with an open file", "the call is not under a condition implying `len(ff.dirIndex) == 0` / `ff.f != nil`: a generated directory page (no file) reaches a reader that panics without one")
+			}
+		}
+	}
+	r.Floor(rule, nCall, 1, "calls of the f-requiring methods")
+	r.Assume("C08.precond: a generated directory index is never empty (createDirIndex writes at least the HTML frame), so len(dirIndex) == 0 identifies file entries")
+}
+
+// C13.window — bytes are taken from a node only inside its [off, malloc) window.
+func c13Window(e *Env) {
+	const rule = "C13.window"
+	w, r := e.W, e.R
+	r.Explainf("C13.window: fill stretches every node's slice to its capacity (`node.buf = node.buf[:cap]`), so the valid bytes of a node are buf[off:malloc] only. In package network/standard every slice of a node's buf that starts at its read offset (`buf[X.off…`) has an explicit upper bound; `buf[off:]` also copies the stale bytes behind malloc, which advances the destination index too far when a read spans two nodes.")
+	bufF := w.Field("pkg/network/standard", "linkBufferNode", "buf")
+	off := w.Field("pkg/network/standard", "linkBufferNode", "off")
+	if bufF == nil || off == nil {
+		r.Anchor(rule, "standard.linkBufferNode.buf / off")
+		return
+	}
+	n := 0
+	for _, fi := range declaredNonTest(w) {
+		if fi.Decl.Body == nil || w.RelPkg(fi.Obj.Pkg()) != "pkg/network/standard" {
+			continue
+		}
+		info := fi.Pkg.TypesInfo
+		fname := w.FuncName(fi.Obj)
+		k := 0
+		ast.Inspect(fi.Decl.Body, func(nd ast.Node) bool {
+			se, ok := nd.(*ast.SliceExpr)
+			if !ok || usedVar(info, se.X) != bufF || se.Low == nil {
+				return true
+			}
+			fromOff := false
+			ast.Inspect(se.Low, func(m ast.Node) bool {
+				if x, ok := m.(ast.Expr); ok && usedVar(info, x) == off {
+					fromOff = true
+				}
+				return true
+			})
+			if !fromOff {
+				return true
+			}
+			k++
+			n++
+			r.Check(se.High != nil, rule, fmt.Sprintf("%s:buf[off…]#%d:bounded", fname, k), w.Pos(se.Pos()), "a slice of a node's buffer that starts at its read offset has an upper bound", "`"+types.ExprString(se)+"` runs to the end of the stretched buffer: bytes behind the node's write offset are taken for data")
+			return true
+		})
+	}
+	r.Floor(rule, n, 3, "slices buf[off…] in network/standard")
+}
+
+// C13.alias — a local holding a buffer's tail node is re-read after a call that may replace
+// the tail node.
+func c13Alias(e *Env) {
+	const rule = "C13.alias"
+	w, r := e.W, e.R
+	r.Explainf("C13.alias: the tail node of a link buffer (`linkBuffer.write`) is replaced by the functions that append a node (found as the functions assigning that field: Malloc, WriteBinary, fill, handleTail). In every function of package network/standard, a local variable assigned from `….write` is not used after a call to one of those functions until it has been assigned from `….write` again (statement order): the stale alias points at the previous node, and resetting or filling it corrupts what is flushed.")
+	writeF := w.Field("pkg/network/standard", "linkBuffer", "write")
+	if writeF == nil {
+		r.Anchor(rule, "standard.linkBuffer.write")
+		return
+	}
+	// functions that assign the field
+	repl := map[*types.Func]bool{}
+	for _, fi := range declaredNonTest(w) {
+		if fi.Decl.Body == nil || w.RelPkg(fi.Obj.Pkg()) != "pkg/network/standard" {
+			continue
+		}
+		info := fi.Pkg.TypesInfo
+		ast.Inspect(fi.Decl.Body, func(nd ast.Node) bool {
+			if as, ok := nd.(*ast.AssignStmt); ok {
+				for _, l := range as.Lhs {
+					if usedVar(info, l) == writeF {
+						repl[fi.Obj] = true
+					}
+				}
+			}
+			return true
+		})
+	}
+	r.Floor(rule, len(repl), 2, "functions that replace a buffer's tail node")
+	n := 0
+	for _, fi := range declaredNonTest(w) {
+		if fi.Decl.Body == nil || w.RelPkg(fi.Obj.Pkg()) != "pkg/network/standard" {
+			continue
+		}
+		info := fi.Pkg.TypesInfo
+		fname := w.FuncName(fi.Obj)
+		// locals assigned from ….write
+		holders := map[*types.Var]bool{}
+		ast.Inspect(fi.Decl.Body, func(nd ast.Node) bool {
+			if as, ok := nd.(*ast.AssignStmt); ok && len(as.Lhs) == len(as.Rhs) {
+				for i, l := range as.Lhs {
+					if id, ok := l.(*ast.Ident); ok && usedVar(info, as.Rhs[i]) == writeF {
+						if v, ok := info.ObjectOf(id).(*types.Var); ok && !v.IsField() {
+							holders[v] = true
+						}
+					}
+				}
+			}
+			return true
+		})
+		for v := range holders {
+			n++
+			// events in source order: refresh / stale / use
+			type ev struct {
+				pos  token.Pos
+				kind string
+				txt  string
+			}
+			var evs []ev
+			refreshLHS := map[*ast.Ident]bool{}
+			ast.Inspect(fi.Decl.Body, func(nd ast.Node) bool {
+				switch x := nd.(type) {
+				case *ast.AssignStmt:
+					if len(x.Lhs) == len(x.Rhs) {
+						for i, l := range x.Lhs {
+							if id, ok := l.(*ast.Ident); ok && info.ObjectOf(id) == types.Object(v) && usedVar(info, x.Rhs[i]) == writeF {
+								evs = append(evs, ev{x.End(), "refresh", ""})
+								refreshLHS[id] = true
+							}
+						}
+					}
+				case *ast.CallExpr:
+					if f := calleeOf(info, x); f != nil && repl[f] {
+						evs = append(evs, ev{x.End(), "stale", f.Name()})
+					}
+				case *ast.Ident:
+					if info.ObjectOf(x) == types.Object(v) && !refreshLHS[x] {
+						evs = append(evs, ev{x.Pos(), "use", ""})
+					}
+				}
+				return true
+			})
+			sort.Slice(evs, func(i, j int) bool { return evs[i].pos < evs[j].pos })
+			stale, bad := "", ""
+			var badPos token.Pos
+			for _, e2 := range evs {
+				switch e2.kind {
+				case "refresh":
+					stale = ""
+				case "stale":
+					stale = e2.txt
+				case "use":
+					if stale != "" && bad == "" {
+						bad, badPos = stale, e2.pos
+					}
+				}
+			}
+			key := fmt.Sprintf("%s:%s:fresh", fname, v.Name())
+			if bad == "" {
+				r.OK(rule, key, w.Pos(fi.Decl.Pos()), "the tail-node alias is re-read after every call that may replace the tail")
+			} else {
+				r.Fail(rule, key, w.Pos(badPos), "the tail-node alias is re-read after every call that may replace the tail", v.Name()+" is used after "+bad+"(…) without being re-read from ….write: it still points at the previous tail node")
+			}
+		}
+	}
+	r.Floor(rule, n, 1, "locals holding a buffer's tail node")
 }
